@@ -24,7 +24,7 @@ RULE = (
     "a few n*eps*max|x|^2 ~ 1e-12 is what 'floating-point accuracy for well-conditioned data' allows) and the same vs numpy.var. Non-trivial = (inf) a group whose true extreme is infinite; (int) a "
     "group total beyond the input dtype's range; (var) >=2 blocks."
 )
-BUDGET = {"quick": 300, "thorough": 4000}
+BUDGET = {"quick": 600, "thorough": 4000}
 ASSUMPTIONS = ["totals kept below 2**53 so that NumPy's float64 bincount path is not what is being tested"]
 
 INT_ALPHA = {
